@@ -11,6 +11,7 @@ import (
 	"os"
 	"path/filepath"
 	"strings"
+	"time"
 
 	"filippo.io/age"
 	"filippo.io/age/internal/stream"
@@ -50,7 +51,8 @@ func frameSig(fs []strm.Frame, cut int) string {
 }
 
 // SourceKinds for the payload reader.
-var SourceKinds = []string{"bytes", "onebyte", "dataerr", "half", "zeronil", "chunk7", "s65551", "s65552", "s65553", "s65552eof"}
+// (buffered sources too: the reader may be handed a *bufio.Reader - cmd/age does - and must not treat it specially)
+var SourceKinds = []string{"bytes", "onebyte", "dataerr", "half", "zeronil", "chunk7", "s65551", "s65552", "s65553", "s65552eof", "bufio", "bufio16", "bufio65536"}
 
 func Source(kind string, b []byte) io.Reader {
 	switch kind {
@@ -324,9 +326,72 @@ func byteLevel(run *vk.Run, seed int64) {
 		}
 	}
 	emptyFinalAfterFull(run, rng)
+	cliTruncation(run, id, rng)
 	if run.Thorough() {
 		carry(run, id, rng)
 		secondCarryReplay(run, rng)
+	}
+}
+
+// cliTruncation: the command-line tool is a caller of the library like any other: files cut at every chunk boundary (and
+// one byte either side), and files with trailing bytes, given to `age -d` on a file and on standard input, must not end
+// with exit status 0.
+func cliTruncation(run *vk.Run, id *age.X25519Identity, rng *rand.Rand) {
+	ageBin := filepath.Join(vk.BuildCLI(), "age")
+	dir, err := os.MkdirTemp("", "c02cli-")
+	if err != nil {
+		vk.Infra("%v", err)
+	}
+	defer os.RemoveAll(dir)
+	os.WriteFile(filepath.Join(dir, "k.txt"), []byte(id.String()+"\n"), 0o600)
+	n := 2*strm.Chunk + 100
+	pt := make([]byte, n)
+	rng.Read(pt)
+	var buf bytes.Buffer
+	wc, _ := age.Encrypt(&buf, id.Recipient())
+	wc.Write(pt)
+	wc.Close()
+	file := buf.Bytes()
+	hdr := len(file) - (16 + n + 3*16)
+	var cases []struct {
+		name string
+		b    []byte
+	}
+	for k := 0; k <= 2; k++ {
+		cut := hdr + 16 + k*strm.EncChunk
+		for _, d := range []int{-1, 0, 1} {
+			if cut+d > hdr && cut+d < len(file) {
+				cases = append(cases, struct {
+					name string
+					b    []byte
+				}{fmt.Sprintf("cut-at-chunk-%d%+d", k, d), file[:cut+d]})
+			}
+		}
+	}
+	cases = append(cases, struct {
+		name string
+		b    []byte
+	}{"trailing-1", append(append([]byte{}, file...), 0)})
+	for _, c := range cases {
+		for _, via := range []string{"file", "stdin"} {
+			var p vk.Proc
+			if via == "file" {
+				os.WriteFile(filepath.Join(dir, "in.age"), c.b, 0o600)
+				p = vk.RunProc(60*time.Second, dir, nil, []byte{}, ageBin, "-d", "-i", "k.txt", "-o", "out.bin", "in.age")
+			} else {
+				p = vk.RunProc(60*time.Second, dir, nil, c.b, ageBin, "-d", "-i", "k.txt", "-o", "out.bin")
+			}
+			run.Eval(1)
+			out, _ := os.ReadFile(filepath.Join(dir, "out.bin"))
+			os.Remove(filepath.Join(dir, "out.bin"))
+			sig := fmt.Sprintf("cli:%s:%s", c.name, via)
+			if p.Exit == 0 {
+				run.Violation("C02:clean-eof-on-altered-payload:"+sig, fmt.Sprintf("age -d on a payload %s (%s) exited 0 after writing %d of %d plaintext bytes", c.name, via, len(out), n), map[string]interface{}{"check": "C02.cli", "case": c.name, "via": via})
+			} else if len(out) > n || !bytes.Equal(out, pt[:len(out)]) {
+				run.Violation("C02:released-not-prefix:"+sig, "age -d left bytes that are not a prefix of the plaintext", map[string]interface{}{"check": "C02.cli", "case": c.name, "via": via})
+			}
+			run.Distinct(sig)
+		}
 	}
 }
 
